@@ -253,7 +253,7 @@ def run(ctx):
         dict_eq(ctx, "R3", f"replace ({label}): other counts kept, source moved to target", got_atoms, want_atoms, s_sub)
         mass1 = mass0 + q[0] * portion * (mass_sym("D") - mass_sym("H1"))
         eq(ctx, "R3", f"replace ({label}): density scales with the mass (cell volume kept)",
-           I.getattr(r, "density"), d * mass1 / mass0, s_sub)
+           _generic_arm(I.getattr(r, "density"), p), d * mass1 / mass0, s_sub)
     # substitution by a different element, an ion and an isotope of another element: mass scaling, not natural density
     for kind in ("element", "ion_element", "isotope"):
         tgt = A[kind]
@@ -264,7 +264,7 @@ def run(ctx):
         dict_eq(ctx, "R3", f"replace (O by {kind}, partial): other counts kept, source moved to target", got_atoms,
                 {H1: q[0], O: q[1] * (1 - p), D: q[2], tgt: q[1] * p}, s_sub)
         eq(ctx, "R3", f"replace (O by {kind}, partial): density scales with the mass (cell volume kept)",
-           I.getattr(r, "density"), d * (mass0 + q[1] * p * (mt - mO)) / mass0, s_sub)
+           _generic_arm(I.getattr(r, "density"), p), d * (mass0 + q[1] * p * (mt - mO)) / mass0, s_sub)
     r = I.call(I.getattr(f, "replace"), [H, D], {})
     dict_eq(ctx, "R3", "replace of an absent atom changes nothing", I.getattr(r, "atoms"), {H1: q[0], O: q[1], D: q[2]}, s_sub)
     eq(ctx, "R3", "replace of an absent atom keeps the density", I.getattr(r, "density"), d, s_sub)
